@@ -54,7 +54,7 @@ SchemaKinds == {"create_table", "drop_table", "alter_add", "alter_dropcol", "alt
 
 ExprPosOf(k) ==
   CASE k = "select"       -> SelExprPos
-    [] k = "insert"       -> {"values", "conflict_set", "conflict_where", "conflict_target", "returning"}
+    [] k = "insert"       -> {"values", "conflict_set", "conflict_where", "returning"}
     [] k = "update"       -> {"set", "where", "returning"}
     [] k = "delete"       -> {"where", "returning"}
     [] k = "create_table" -> {"default", "check", "tcheck", "generated"}
@@ -137,10 +137,13 @@ NameAt(ps, i) == IF ps[i].form = "view" THEN View[i + 1] ELSE Tab[i + 1]
 Nested(ps) == {Perm(NameAt(ps, i), "read") : i \in 1..Len(ps)}
 CteNames(ps) == {Perm(Cte[i + 1], "read") : i \in {j \in 1..Len(ps) : ps[j].form = "cte_ref"}}
 
-Required(s) == Own(s.kind) \cup Nested(s.plants)
+(* CREATE VIEW stores its body, it does not read it (SQLite opens only the     *)
+(* schema table): the statement demands schema authority, no read             *)
+Stored(k) == k = "create_view"
+Required(s) == Own(s.kind) \cup (IF Stored(s.kind) THEN {} ELSE Nested(s.plants))
 
 (* base tables SQLite has to open below level 0 (a view expands to its table) *)
-NestedBase(s) == {Tab[i + 1] : i \in 1..Len(s.plants)}
+NestedBase(s) == IF Stored(s.kind) THEN {} ELSE {Tab[i + 1] : i \in 1..Len(s.plants)}
 IsSchema(s) == s.kind \in SchemaKinds
 
 (* the permission universe, written out (TLC re-enumerates lazily built sets  *)
@@ -299,7 +302,7 @@ Sql(s) ==
         f   == s.plants[1].form
         q1  == IF f = "view" THEN "" ELSE Sel(s.plants, 1, 1)
         q2  == IF f = "view" THEN "" ELSE Sel(s.plants, 1, 2)
-        opd == IF k = "insert" /\ pos \in {"values", "conflict_target"} THEN "1"
+        opd == IF k = "insert" /\ pos = "values" THEN "1"
                ELSE IF k = "create_table" THEN "k" ELSE "b"
         e   == IF f = "rowsub" THEN "" ELSE Ex(f, opd, q1)
         src == Src(f, 1, q2)
@@ -308,7 +311,6 @@ Sql(s) ==
          [] k = "insert" /\ pos = "conflict_set"    -> "INSERT INTO T (a, b) VALUES (10, 5) ON CONFLICT (a) DO UPDATE SET "
                                                        \o (IF f = "rowsub" THEN "(b, c) = " \o P(q2) ELSE "b = " \o e)
          [] k = "insert" /\ pos = "conflict_where"  -> "INSERT INTO T (a, b) VALUES (10, 5) ON CONFLICT (a) DO UPDATE SET b = 5 WHERE " \o e
-         [] k = "insert" /\ pos = "conflict_target" -> "INSERT INTO T (a, b) VALUES (50, 5) ON CONFLICT (a) WHERE " \o e \o " DO NOTHING"
          [] k = "insert" /\ pos = "returning"       -> "INSERT INTO T (a, b) VALUES (50, 5) RETURNING " \o e
          [] k = "update" /\ pos = "set"             -> "UPDATE T SET " \o (IF f = "rowsub" THEN "(b, c) = " \o P(q2) ELSE "b = " \o e)
          [] k = "update" /\ pos = "where"           -> "UPDATE T SET b = 5 WHERE " \o e
